@@ -75,6 +75,19 @@ CHECKS = {
          "(small counts); every draw sequence is played into the real randgraph via a scripted randint, plus a seed sweep with the "
          "real generator (twice per seed); TLC judges no-raise, RandGraphPost, result = load_adj_dict(samples), reproducibility.",
          "TLC model checking (RNG as nondeterminism) + trace validation"),
+ "C14": ("model_checking", "6 C14",
+         "render_to_plantuml_src run on real objects in every fully assigned graph state over the pool (mixed vertex classes) for every "
+         "ordered member list x 3 option tables x 2 title formats; output parsed back; TLC compares declarations (bag) and relation "
+         "lines (bag, orientation, arrow ends by nearest configured class) with EGRender.",
+         "TLC-evaluated specification + trace validation (parsed output = operator)"),
+ "C15": ("model_checking", "6 C15",
+         "make_pyvis_net / pyvis_render_customizable run on real objects for every ordered member list in every graph state over the "
+         "pool; nodes / edges read back; TLC evaluates EGRender!PyvisOK.",
+         "TLC-evaluated specification + trace validation"),
+ "C16": ("model_checking", "6 C16",
+         "basic_render run on real objects for every ordered member list x sorted / unsorted x rfunc / repr in every graph state over "
+         "the pool; text parsed back; TLC compares with EGRender!PlainLines (which is built on EGQueries!Nb).",
+         "TLC-evaluated specification + trace validation (parsed output = operator)"),
 }
 
 NOT_YET = {}
